@@ -2,8 +2,8 @@
 
 SETTINGS_FLOW = {
     "entry.yaml": '- method_list: ["%unit_init"]\n',
-    "source.yaml": "- lang: python\n  rules:\n    - name: src\n      operation: call_stmt\n      target: \"%this\"\n      tag: t\n",
-    "sink.yaml": "- lang: python\n  rules:\n    - name: snk\n      operation: call_stmt\n      target: [\"%arg0\"]\n      tag: t\n",
+    "source.yaml": "- lang: python\n  rules:\n    - operation: call_stmt\n      name: src\n      tag: [\"%target\"]\n",
+    "sink.yaml": "- lang: python\n  rules:\n    - operation: call_stmt\n      name: snk\n      target: [\\%arg0]\n      vuln_type: generic_sink\n",
     "propagation.yaml": "- lang: python\n  rules: []\n",
 }
 
